@@ -458,8 +458,7 @@ def run(ctx):
                 F = np.fft.fft(xa)
                 if okf and any(abs(a - (abs(F[j]) ** 2) / n) > 1e-9 * (1 + abs(a)) for j, a in enumerate(I)):
                     ctx.fail("periodogram_value", "periodogram != |FFT|^2/n", inp, I[:5], None)
-                cases.append(tup("[" + "; ".join(tup(qlit(frac(c.real)), qlit(frac(c.imag))) for c in F) + "]",
-                                 "[" + "; ".join(tup(qlit(frac(a / (2 * math.pi))), qlit(frac(b))) for a, b in zip(w, I)) + "]"))
+                cases.append(tup("%d%%nat" % n, qlist([frac(a / (2 * math.pi)) for a in w])))
                 meta.append(inp)
         if n >= 4:
             for window in (None, "hanning"):
@@ -483,8 +482,9 @@ def run(ctx):
                     ctx.fail("raises_on_admissible_input", "ar_periodogram raised " + err, inp, err, "a value")
                     continue
                 check_freqs(inp, [float(v) for v in w], [float(v) for v in I], m)
-    ok = "fun c => let '(dft, out) := c in QQs_close %s (periodogram dft) out" % T9
-    bad = ctx.coq_check("periodogram_every_n", IMPORTS, "list (Q * Q) * list (Q * Q)", ok, cases, chunk=13, preamble=PRE)
+    # the number and values of the retained frequencies depend only on n: the model is run on a zero DFT of length n
+    ok = "fun c => let '(n, ws) := c in Qs_close %s (map fst (periodogram (repeat (0, 0) n))) ws" % T12
+    bad = ctx.coq_check("periodogram_every_n", IMPORTS, "nat * list Q", ok, cases, chunk=25, preamble=PRE)
     for i in bad:
         ctx.mismatch("C19.Model.periodogram (index logic for every n) vs _estspec.periodogram", meta[i])
 
